@@ -345,7 +345,7 @@ MUTANTS = {
         mut("tpl-floor", "template truncates instead of rounding", [(TYP, "  let rounded = calc.round(value, digits: digits)", "  let rounded = calc.floor(value * calc.pow(10, digits)) / calc.pow(10, digits)")], ["R1"]),
         mut("tpl-group-4", "digit groups of four", [(TYP, "step: 3", "step: 4")], ["R11:group"]),
         mut("neutral-tpl-inline-abs", "template: abs inlined into the rounding call", [(TYP, "  let abs = calc.abs(value)\n  let fixed = fmt-fixed(abs, digits: 2)", "  let fixed = fmt-fixed(calc.abs(value), digits: 2)")], neutral=True),
-        mut("neutral-tpl-rename", "template: quantity formatter renamed", [(TYP, "#let fmt-qty(value) =", "#let show-shares(value) ="), (TYP, "#text(fill: text-muted)[#fmt-qty(disposal.quantity) shares]", "#text(fill: text-muted)[#show-shares(disposal.quantity) shares]")], neutral=True),
+        mut("neutral-tpl-rename", "template: zero-trimming helper renamed", [(TYP, "#let trim-zeros(text) =", "#let strip-trailing-zeros(text) ="), (TYP, "#let fmt-qty(value) = trim-zeros(fmt-fixed(value, digits: 6))", "#let fmt-qty(value) = strip-trailing-zeros(fmt-fixed(value, digits: 6))")], neutral=True),
         mut("mcp-float", "MCP explain converts to f64", [(SERVER, "                    quantity: m.quantity.to_string(),\n                    allowable_cost: m.allowable_cost.to_string(),", "                    quantity: m.quantity.to_string(),\n                    allowable_cost: rust_decimal::prelude::ToPrimitive::to_f64(&m.allowable_cost).unwrap_or(0.0).to_string(),")], ["R2:"]),
     ],
     "C18": [
